@@ -216,12 +216,19 @@ def _parse_core_swhid(swhid: Union[str, CoreSWHID, None]) -> Optional[CoreSWHID]
         return CoreSWHID.from_string(swhid)
 
 
+# <dec_digit>+ ["-" <dec_digit>+], ASCII digits only
+_LINES_QUALIFIER_RE = re.compile("[0-9]+(-[0-9]+)?")
+
+
 def _parse_lines_qualifier(
     lines: Union[str, Tuple[int, Optional[int]], None],
 ) -> Optional[Tuple[int, Optional[int]]]:
     try:
         if lines is None or isinstance(lines, tuple):
             return lines
+        elif not _LINES_QUALIFIER_RE.fullmatch(lines):
+            # int() alone is laxer than the grammar (signs, underscores, non-ASCII digits)
+            raise ValueError(lines)
         elif "-" in lines:
             (from_, to) = lines.split("-", 2)
             return (int(from_), int(to))
